@@ -21,7 +21,7 @@ from pvm.ref import c31_exact as ex
 PROP = "C31"
 N = {"quick": 1600, "thorough": 120000}
 WORKERS = {"quick": 4, "thorough": 16}
-TIMEOUT = {"quick": 300, "thorough": 1500}
+TIMEOUT = {"quick": 600, "thorough": 3000}
 CASE_TIMEOUT = 60.0
 RULE = ("integer-lattice inputs: simple polygons (star-shaped, convex hulls, rectilinear L/U/T/"
         "comb shapes and their integer-affine images, both orientations), polyhedra given as "
